@@ -227,6 +227,22 @@ def check(prop_id, tier, seed, workers=None, budget_s=None, max_runs=None, verbo
                 errors.append(r["error"])
             elif r.get("violation") and known.matches(kf, r["trace"], r["violation"]):
                 known_hits[kf["id"]] = kf
+        # 1b. hand-kept scenarios (regressions of repaired defects, named corner cases)
+        sdir = os.path.join(VERIF, "scenarios", prop_id)
+        if os.path.isdir(sdir):
+            names = sorted(n for n in os.listdir(sdir) if n.endswith(".json"))
+            traces = []
+            for n in names:
+                with open(os.path.join(sdir, n)) as f:
+                    traces.append(json.load(f))
+            for r in pool.imap([(prop_id, "replay", 0, i, "replay", t) for i, t in enumerate(traces)]):
+                r["scenario"] = names[r["index"]]
+                r["index"] = -1 - r["index"]
+                results.append(r)
+                if r.get("error"):
+                    errors.append(r["error"])
+                elif r.get("violation"):
+                    violations.append(r)
         # 2. the seeded search
         tasks = ((prop_id, tier, seed, i, "gen", None) for i in range(n_runs))
         stopped_early = False
@@ -238,7 +254,16 @@ def check(prop_id, tier, seed, workers=None, budget_s=None, max_runs=None, verbo
                     break
             elif r.get("violation"):
                 violations.append(r)
-                if len(violations) >= 8:
+                if os.environ.get("GAISIM_SURVEY"):
+                    v = r["violation"]
+                    print("SURVEY", r["index"], r["trace"].get("cfg", {}).get("families"), r["trace"].get("world", {}).get("mode"),
+                          v.get("monitor"), v.get("class"), "step", v.get("step"),
+                          (r["trace"]["ops"][v["step"]].get("argv") if isinstance(v.get("step"), int) and v["step"] < len(r["trace"]["ops"]) else None),
+                          json.dumps(v.get("detail"))[:200], "OPS:", " ; ".join(
+                              (o["op"] + ":" + (o.get("who") or "") + ":" + ((o.get("desc") or {}).get("kind") or "") + ":" + ((o.get("desc") or {}).get("pos") or "")) if o["op"] == "edit" else (o["op"] if o["op"] != "git" else " ".join(o["argv"][:3]))
+                              for o in r["trace"]["ops"]))
+                    sys.stdout.flush()
+                elif len(violations) >= 8:
                     stopped_early = True
                     break
             if time.time() - t0 > budget_s:
@@ -247,7 +272,7 @@ def check(prop_id, tier, seed, workers=None, budget_s=None, max_runs=None, verbo
         # 3. triage: minimise, classify against known findings
         reported = []
         seen_sigs = set()
-        for r in violations:
+        for r in ([] if os.environ.get("GAISIM_SURVEY") else violations):
             v = r["violation"]
             kf = known.classify(known_db, prop_id, r["trace"], v)
             if kf is not None:
